@@ -100,7 +100,8 @@ fn check_invariant(ctx: &mut Ctx, b: &Beam, req_phi: f64, req_theta: f64, hist: 
 /// one random history of up to `maxlen` setter calls
 fn history(ctx: &mut Ctx, maxlen: usize, wild: bool) {
   let c = ctx.rng.pick(&CRYSTALS).clone();
-  let cs = setup(&c, gen_crystal_angle(&mut ctx.rng), gen_crystal_angle(&mut ctx.rng), gen_temp(&mut ctx.rng));
+  let (cth, cph, t_c) = (gen_crystal_angle(&mut ctx.rng), gen_crystal_angle(&mut ctx.rng), gen_temp(&mut ctx.rng));
+  let cs = setup(&c, cth, cph, t_c);
   let lam = gen_lambda(&mut ctx.rng, &c);
   let pol = gen_pol(&mut ctx.rng);
   let (p0, t0) = (gen_angle(&mut ctx.rng), gen_angle(&mut ctx.rng));
@@ -122,7 +123,8 @@ fn history(ctx: &mut Ctx, maxlen: usize, wild: bool) {
   check_invariant(ctx, &beam, req_phi, req_theta, &hist);
   let len = ctx.rng.between(1, maxlen);
   for _ in 0..len {
-    let kind = ctx.rng.below(if wild { 9 } else { 10 });
+    let kind = ctx.rng.below(if wild { 9 } else { 11 }).min(9);
+    let mut sext_done: Option<f64> = None;
     ctx.count(&format!("beam_seq/op={}", kind));
     let mut b2 = beam.clone();
     let (tok, res): (String, Option<()>) = match kind {
@@ -180,21 +182,30 @@ fn history(ctx: &mut Ctx, maxlen: usize, wild: bool) {
         match t {
           Some(t) => {
             req_theta = t; // the internal angle the setter asks set_angles for (azimuth: unchanged)
+            sext_done = Some(ext.abs());
+            // K: the search itself on the beam as the history left it
+            let n = *cs.crystal.get_indices(beam.vacuum_wavelength(), cs.temperature);
+            snell_int_case(ctx, &beam, &cs, &n, *(cs.theta / RAD), *(cs.phi / RAD), beam.polarization(), ext.abs());
             (format!("sext {}", fl(t)), guard(|| { b2.set_theta_external(ext * RAD, &cs); }))
           }
           None => ("sext PANIC".to_string(), None),
         }
       }
     };
-    hist.push_str(&format!(";{}", tok.split(' ').next().unwrap()));
+    hist.push_str(&format!(";{}", human(&tok)));
     args.push_str(" | ");
     args.push_str(&tok);
     match res {
       Some(()) => {
         beam = b2;
         outs.push(state(&beam));
-        let h = format!("{}[{}]", hist, tok);
+        let h = hist.clone();
         check_invariant(ctx, &beam, req_phi, req_theta, &h);
+        if let Some(e) = sext_done {
+          // the Snell clauses of the statement after an arbitrary prior history
+          let d0 = format!("crystal={} ctheta={:e} cphi={:e} T={} ext_deg={:e} history={}", c, cth, cph, t_c, e / DEG, h);
+          readback_checks(ctx, &beam, &cs, e, &d0);
+        }
         if kind == 8 {
           let d = beam.direction().into_inner();
           ctx.s("C13.pump_z", d == Vector3::new(0.0, 0.0, 1.0), "beam/pump-z", &h);
@@ -202,12 +213,28 @@ fn history(ctx: &mut Ctx, maxlen: usize, wild: bool) {
       }
       None => {
         outs.push("PANIC".into());
-        ctx.s("C13.invariant", false, "beam/setter/panic", &format!("{}[{}]", hist, tok));
+        ctx.s("C13.invariant", false, "beam/setter/panic", &hist);
         break;
       }
     }
   }
   ctx.k("beam_seq", &args, &outs.join(" | "));
+}
+
+/// `sang x… x…` → `sang(1.5e0,-3e-1)` (decimal, for replaying a history by hand)
+fn human(tok: &str) -> String {
+  let mut it = tok.split(' ');
+  let name = it.next().unwrap_or("");
+  let args: Vec<String> = it
+    .map(|t| {
+      if t.len() == 17 && t.starts_with('x') {
+        u64::from_str_radix(&t[1..], 16).map(|b| format!("{:e}", f64::from_bits(b))).unwrap_or_else(|_| t.to_string())
+      } else {
+        t.to_string()
+      }
+    })
+    .collect();
+  format!("{}({})", name, args.join(","))
 }
 
 trait AbsAngle {
@@ -224,29 +251,22 @@ fn vacuum_freq(lambda: f64) -> f64 {
 }
 
 /// Snell: set external angle, read it back; forward law as K
-fn snell_case(ctx: &mut Ctx, c: &CrystalType, cs: &CrystalSetup, ctheta: f64, cphi: f64, t_c: f64, lam: f64, pol: PolarizationType, bphi: f64, ext_deg: f64) {
-  let ext = ext_deg * DEG;
-  let mut beam = Beam::new(pol, bphi * RAD, 0.0 * RAD, lam * M, 100e-6 * M);
-  let n = *cs.crystal.get_indices(beam.vacuum_wavelength(), cs.temperature);
-  let det0 = format!(
-    "crystal={} ctheta={:e} cphi={:e} T={} lambda={:e} pol={} bphi={:e} ext_deg={:e}",
-    c, ctheta, cphi, t_c, lam, pol_tok(pol), bphi, ext_deg
-  );
-  ctx.count(&format!("snell/crystal={}", c));
-  // K: the internal-from-external search itself (cost closure + bounded 1-D Nelder–Mead)
-  snell_int_case(ctx, &beam, cs, &n, ctheta, cphi, pol, ext);
+/// the statement's Snell clauses on a beam whose external angle has just been set to `ext` (≥ 0)
+fn readback_checks(ctx: &mut Ctx, beam: &Beam, cs: &CrystalSetup, ext: f64, det0: &str) -> Option<(f64, f64)> {
   let r = guard(|| {
-    beam.set_theta_external(ext * RAD, cs);
     let ti = *(beam.theta_internal() / RAD);
     let back = *(beam.theta_external(cs) / RAD);
     let ni = *beam.refractive_index(beam.frequency(), cs);
     (ti, back, ni)
   });
   match r {
-    None => ctx.s("C13.readback", false, "snell/panic", &det0),
+    None => {
+      ctx.s("C13.readback", false, "snell/panic", det0);
+      None
+    }
     Some((ti, back, ni)) => {
       let det = format!("{} theta_i={:e} readback_deg={:e} n_i={}", det0, ti, back / DEG, ni);
-      ctx.s("C13.readback", (back / DEG - ext_deg).abs() <= READBACK_TOL_DEG, "snell/readback", &det);
+      ctx.s("C13.readback", (back / DEG - ext / DEG).abs() <= READBACK_TOL_DEG, "snell/readback", &det);
       // sin θe = n(θi)·sin θi — to the accuracy the statement's read-back tolerance implies
       ctx.s(
         "C13.snell_identity",
@@ -255,16 +275,64 @@ fn snell_case(ctx: &mut Ctx, c: &CrystalType, cs: &CrystalSetup, ctheta: f64, cp
         &det,
       );
       ctx.s("C13.internal_le_external", ti.abs() <= ext.abs(), "snell/internal-le-external", &det);
-      // K: forward Snell at the stored internal angle (= Beam::theta_external)
-      ctx.k(
-        "snell_ext",
-        &format!(
-          "{} {} {} {} {} {} {} {}",
-          fl(n.x), fl(n.y), fl(n.z), fl(ctheta), fl(cphi), fl(*(beam.phi() / RAD)), pol_tok(pol), fl(ti)
-        ),
-        &fl(back),
-      );
+      Some((ti, back))
     }
+  }
+}
+
+/// previous internal polar angles of a beam with a history: 0, ±small, ±90°, backward (147°–180°), negative
+fn gen_prev_theta(r: &mut Rng, j: usize) -> f64 {
+  const FIXED: [f64; 14] = [180.0, 150.0, -172.0, 165.0, 1e-3, -1e-3, 90.0, -90.0, 12.0, -40.0, 95.0, 140.0, 147.5, 179.999];
+  if j < FIXED.len() {
+    FIXED[j] * DEG
+  } else {
+    match r.below(4) {
+      0 => r.range(147.0, 180.0) * DEG * if r.coin() { 1.0 } else { -1.0 },
+      1 => r.range(-0.3, 0.3),
+      _ => r.range(-PI, PI),
+    }
+  }
+}
+
+/// Snell: set external angle, read it back; forward law as K.  `prev` = the beam's history before the
+/// call: (previous internal polar angle, previous azimuth, previous wavelength); `None` = fresh beam.
+fn snell_case(ctx: &mut Ctx, c: &CrystalType, cs: &CrystalSetup, ctheta: f64, cphi: f64, t_c: f64, lam: f64, pol: PolarizationType, bphi: f64, ext_deg: f64, prev: Option<(f64, f64, f64)>) {
+  let ext = ext_deg * DEG;
+  let (mut beam, hist) = match prev {
+    None => (Beam::new(pol, bphi * RAD, 0.0 * RAD, lam * M, 100e-6 * M), "fresh".to_string()),
+    Some((pt, pp, pl)) => {
+      // a beam that has lived: other polarisation, azimuth, wavelength and a non-trivial polar angle first
+      let other = if pol == PolarizationType::Ordinary { PolarizationType::Extraordinary } else { PolarizationType::Ordinary };
+      let mut b = Beam::new(other, pp * RAD, pt * RAD, pl * M, 50e-6 * M);
+      b.set_polarization(pol);
+      b.set_vacuum_wavelength(lam * M);
+      b.set_phi(bphi * RAD);
+      (b, format!("new(theta={:e},phi={:e},lambda={:e});set_polarization;set_vacuum_wavelength;set_phi", pt, pp, pl))
+    }
+  };
+  let n = *cs.crystal.get_indices(beam.vacuum_wavelength(), cs.temperature);
+  let det0 = format!(
+    "crystal={} ctheta={:e} cphi={:e} T={} lambda={:e} pol={} bphi={:e} ext_deg={:e} prev_theta_deg={:e} history={}",
+    c, ctheta, cphi, t_c, lam, pol_tok(pol), bphi, ext_deg, *(beam.theta_internal() / RAD) / DEG, hist
+  );
+  ctx.count(&format!("snell/crystal={}", c));
+  ctx.count(&format!("snell/history={}", if prev.is_some() { "prefixed" } else { "fresh" }));
+  // K: the internal-from-external search itself (cost closure + bounded 1-D Nelder–Mead), on this very beam
+  snell_int_case(ctx, &beam, cs, &n, ctheta, cphi, pol, ext);
+  if guard(|| { beam.set_theta_external(ext * RAD, cs); }).is_none() {
+    ctx.s("C13.readback", false, "snell/panic", &det0);
+    return;
+  }
+  if let Some((ti, back)) = readback_checks(ctx, &beam, cs, ext, &det0) {
+    // K: forward Snell at the stored internal angle (= Beam::theta_external)
+    ctx.k(
+      "snell_ext",
+      &format!(
+        "{} {} {} {} {} {} {} {}",
+        fl(n.x), fl(n.y), fl(n.z), fl(ctheta), fl(cphi), fl(*(beam.phi() / RAD)), pol_tok(pol), fl(ti)
+      ),
+      &fl(back),
+    );
   }
 }
 
@@ -410,7 +478,12 @@ pub fn run(ctx: &mut Ctx) {
             _ => ctx.rng.range(0.0, TAU),
           };
           let lam = gen_lambda(&mut ctx.rng, c);
-          snell_case(ctx, c, &cs, ctheta, cphi, t_c, lam, *pol, bphi, ext_deg);
+          if j < 4 {
+            snell_case(ctx, c, &cs, ctheta, cphi, t_c, lam, *pol, bphi, ext_deg, None);
+          }
+          // the same request on a beam with a history (previous polar angle anywhere in (−π, π])
+          let prev = (gen_prev_theta(&mut ctx.rng, j + 5 * o), ctx.rng.range(0.0, TAU), gen_lambda(&mut ctx.rng, c));
+          snell_case(ctx, c, &cs, ctheta, cphi, t_c, lam, *pol, bphi, ext_deg, Some(prev));
         }
       }
       // the search outside the statement's domain (negative, −0, beyond 90°): correspondence only
